@@ -143,11 +143,37 @@ pub struct Obs {
     pub violations: Vec<(String, String)>,
     /// what each sequential stream actor is currently doing: (tag, side) -> op
     pub current_op: BTreeMap<(Tag, usize), Op>,
+    /// gates opened by the driver, and the wakers of applications waiting at a gate
+    pub gates_open: std::collections::BTreeSet<u8>,
+    pub gate_wakers: Vec<(u8, std::task::Waker)>,
 }
 
 pub type ObsRef = Rc<RefCell<Obs>>;
 
+/// Wait at gate `n` until the driver opens it.
+pub async fn wait_gate(obs: &ObsRef, n: u8) {
+    std::future::poll_fn(|cx| {
+        let mut o = obs.borrow_mut();
+        if o.gates_open.contains(&n) {
+            std::task::Poll::Ready(())
+        } else {
+            o.gate_wakers.push((n, cx.waker().clone()));
+            std::task::Poll::Pending
+        }
+    })
+    .await;
+}
+
 impl Obs {
+    /// Let the applications waiting at gate `n` go on.
+    pub fn open_gate(&mut self, n: u8) {
+        self.gates_open.insert(n);
+        let (go, keep): (Vec<_>, Vec<_>) = std::mem::take(&mut self.gate_wakers).into_iter().partition(|(g, _)| *g == n);
+        self.gate_wakers = keep;
+        for (_, w) in go {
+            w.wake();
+        }
+    }
     pub fn dir(&mut self, tag: Tag, dir: u8) -> &mut DirLedger {
         self.dirs.entry((tag, dir)).or_default()
     }
@@ -201,6 +227,8 @@ pub enum Op {
     Drop,
     /// keep the stream and never complete (an application that just sits there)
     Park,
+    /// wait until the driver opens gate `n` (`Obs::open_gate`): lets a driver decide WHEN an application goes on
+    Gate(u8),
 }
 
 pub fn op_str(ops: &[Op]) -> String {
@@ -216,6 +244,7 @@ pub fn op_str(ops: &[Op]) -> String {
             Op::ReadOnce(c) => format!("read({c})"),
             Op::Drop => "drop".into(),
             Op::Park => "park".into(),
+            Op::Gate(n) => format!("gate({n})"),
         })
         .collect::<Vec<_>>()
         .join(",")
@@ -351,6 +380,7 @@ pub async fn run_ops<S: RW>(mut s: S, obs: ObsRef, tag: Tag, side: usize, wdir: 
             Op::Park => {
                 std::future::pending::<()>().await;
             }
+            Op::Gate(n) => wait_gate(&obs, n).await,
         }
     }
     {
@@ -473,6 +503,7 @@ async fn run_half_w<S: tokio::io::AsyncWrite + Unpin>(mut s: S, obs: ObsRef, tag
                 o.ev(Ev::Shutdown { tag, dir: wdir, res: r.map_err(|e| es(&e)) });
             }
             Op::Park => std::future::pending::<()>().await,
+            Op::Gate(n) => wait_gate(&obs, n).await,
             Op::Drop => break,
             _ => {}
         }
@@ -502,6 +533,7 @@ async fn run_half_r<S: tokio::io::AsyncRead + Unpin>(mut s: S, obs: ObsRef, tag:
                 let _ = do_read(&mut s, &obs, tag, rdir, chunk).await;
             }
             Op::Park => std::future::pending::<()>().await,
+            Op::Gate(n) => wait_gate(&obs, n).await,
             Op::Drop => break,
             _ => {}
         }
